@@ -526,6 +526,48 @@ func (g *gen) largeExpr(pool []string) string {
 	return g.expr(n, pool, true) // a random tree with many leaves
 }
 
+// longOffsetCall: a long expression (several KB) with unlisted -or-later forms far apart (one near the start, others
+// beyond 4 KiB) and an offending id at the very end: the cited offset must still be the caller's (C15).
+func (g *gen) longOffsetCall() Event {
+	ev, _, _ := g.longOffset()
+	return ev
+}
+
+// longOffset returns the event plus the position and text of the offender as constructed
+func (g *gen) longOffset() (Event, int, string) {
+	plain := plainLicenses(g.t)
+	p := func() string { return plain[g.rng.Intn(len(plain))] }
+	var b strings.Builder
+	b.WriteString(p() + "-or-later " + g.pick([]string{"AND", "OR"}) + " ")
+	target := 4200 + g.rng.Intn(4000)
+	rewrites := 1
+	for b.Len() < target {
+		if b.Len() > 4100 && rewrites < 4 && g.rng.Intn(40) == 0 {
+			b.WriteString(p() + "-or-later OR ")
+			rewrites++
+		} else {
+			b.WriteString(p() + g.pick([]string{"", "+", "-only"}) + " OR ")
+		}
+	}
+	b.WriteString(p() + "-or-later OR ")
+	bad := g.pick([]string{"FOO-1.0", "LicenseRef-", "not.a-license", "\xffX", "DocumentRef- "})
+	e := b.String() + bad
+	at, lex := b.Len(), bad
+	switch bad {
+	case "LicenseRef-":
+		at, lex = b.Len()+len(bad), ""
+	case "\xffX":
+		lex = ""
+	case "DocumentRef- ":
+		at, lex = b.Len()+len("DocumentRef-"), ""
+	}
+	if g.rng.Intn(2) == 0 {
+		return eventOf(obsExtract(e), e, nil), at, lex
+	}
+	l := []string{p()}
+	return eventOf(obsSatisfies(e, l), e, l), at, lex
+}
+
 func (g *gen) largeCall() Event {
 	pool := g.relatedPool()
 	g.terms = g.terms[:0]
